@@ -18,7 +18,9 @@ Fixpoint alookup (fs : fsys) (k : list (list Z)) : option node :=
   | [] => None
   | (k', n) :: r => if parts_eqb k' k then Some n else alookup r k
   end.
-(* the key [] is "/" *)
+(* the key [] is "/" for an absolute path and the working directory for a relative one: the model keeps ONE name space per
+   server (keys are parts as the server names them); this is adequate because all paths of one server have the anchor of its root
+   (theorem C19_request_to_localpath_confined) — only tempfile's absolutised name differs, see [shown] below *)
 Definition lookup (fs : fsys) (k : list (list Z)) : option node := match k with [] => Some NDir | _ => alookup fs k end.
 Fixpoint aremove (fs : fsys) (k : list (list Z)) : fsys :=
   match fs with
@@ -110,9 +112,13 @@ Record response := { rcode : Z; rbody : body; retag : bool }.   (* code = class 
 
 Inductive exnk :=
 | XInvalidPath | XNoSuchFile | XTrailingSlashMissing | XAbundantTrailingSlash | XPreconditionFailed | XUnallowedMethod
-| XValueError | XOSError (e : ferr).
+| XValueError | XOSError (e : ferr)
+| XContinue | XIncomplete | XBadRequest.        (* blockwise.ContinueException 2.31, IncompleteException 4.08, error.BadRequest 4.00 *)
 
-Record state := { st_fs : fsys; st_obs : list (ppath * bool) }.   (* _observations: path -> (last_stat is not None) *)
+(* key of a block-wise operation (blockwise._extract_block_key): method and every option except Block1/Block2/Observe *)
+Definition spoolkey := (Z * list (list Z) * list etagref * list etagref * bool)%type.
+Record state := { st_fs : fsys; st_obs : list (ppath * bool);          (* _observations: path -> (last_stat is not None) *)
+                  st_spool : list (spoolkey * list Z) }.                (* Block1Spool._assemblies: key -> body received so far *)
 Definition FM (A : Type) := state -> (state * list effect) * (exnk + A).
 Definition ret {A} (a : A) : FM A := fun st => ((st, []), inr a).
 Definition raise {A} (e : exnk) : FM A := fun st => ((st, []), inl e).
@@ -131,22 +137,27 @@ Definition stat (p : ppath) : FM (ferr + node) := fun st => ((st, [EStat p]), in
 Definition listdir (p : ppath) : FM (ferr + list (list Z)) := fun st => ((st, [EListDir p]), inr (fs_listdir (st_fs st) p)).
 Definition open_read (p : ppath) : FM (ferr + list Z) := fun st => ((st, [EOpenRead p]), inr (fs_read (st_fs st) p)).
 Definition open_dir_w (p : ppath) : FM (ferr + unit) := fun st => ((st, [EOpenDirW p]), inr (if has_nul p then inl EINVAL else inr tt)).
-Definition with_fs (st : state) (fs : fsys) : state := {| st_fs := fs; st_obs := st_obs st |}.
-Definition create (p : ppath) (c : list Z) : FM (ferr + unit) :=
+Definition with_fs (st : state) (fs : fsys) : state := {| st_fs := fs; st_obs := st_obs st; st_spool := st_spool st |}.
+(* [shown] is the path as Python passes it to the call (what the effect records); [p] is the same location in the server's
+   name space.  They differ only for the temporary file under a relative root: tempfile applies os.path.abspath to its dir. *)
+Definition create (shown p : ppath) (c : list Z) : FM (ferr + unit) :=
   fun st => match fs_create (st_fs st) p c with
-            | inl e => ((st, [ECreate p]), inr (inl e))
-            | inr fs' => ((with_fs st fs', [ECreate p]), inr (inr tt))
+            | inl e => ((st, [ECreate shown]), inr (inl e))
+            | inr fs' => ((with_fs st fs', [ECreate shown]), inr (inr tt))
             end.
-Definition rename (a b : ppath) : FM (ferr + unit) :=
+Definition rename (shown a b : ppath) : FM (ferr + unit) :=
   fun st => match fs_rename (st_fs st) a b with
-            | inl e => ((st, [ERename a b]), inr (inl e))
-            | inr fs' => ((with_fs st fs', [ERename a b]), inr (inr tt))
+            | inl e => ((st, [ERename shown b]), inr (inl e))
+            | inr fs' => ((with_fs st fs', [ERename shown b]), inr (inr tt))
             end.
-Definition unlink (p : ppath) : FM (ferr + unit) :=
+Definition unlink (shown p : ppath) : FM (ferr + unit) :=
   fun st => match fs_unlink (st_fs st) p with
-            | inl e => ((st, [EUnlink p]), inr (inl e))
-            | inr fs' => ((with_fs st fs', [EUnlink p]), inr (inr tt))
+            | inl e => ((st, [EUnlink shown]), inr (inl e))
+            | inr fs' => ((with_fs st fs', [EUnlink shown]), inr (inr tt))
             end.
+(* os.path.abspath(p) for a path without "." and ".." parts: a relative path is prefixed with the working directory *)
+Definition abspath (self : fileserver) (p : ppath) : ppath :=
+  if anchor p =? 0 then {| anchor := 1; parts := fs_cwd self ++ parts p |} else p.
 
 (* ------------------------------------------------------------------ FileServer *)
 Definition last_is_empty (path : list (list Z)) : bool := str_empty (last path [0]).     (* path[-1] == "" for non-empty path *)
@@ -167,7 +178,7 @@ Fixpoint obs_mark (o : list (ppath * bool)) (p : ppath) : list (ppath * bool) :=
 Definition obs_register (p : ppath) : FM unit :=
   fun st => match obs_find (st_obs st) p with
             | Some _ => ((st, []), inr tt)
-            | None => (({| st_fs := st_fs st; st_obs := st_obs st ++ [(p, false)] |}, []), inr tt)
+            | None => (({| st_fs := st_fs st; st_obs := st_obs st ++ [(p, false)]; st_spool := st_spool st |}, []), inr tt)
             end.
 Definition add_observation (self : fileserver) (req : request) : FM unit :=
   p <-- lift_path (request_to_localpath self req) ;;;
@@ -175,7 +186,7 @@ Definition add_observation (self : fileserver) (req : request) : FM unit :=
 (* fileserver.py:294-300: the first GET after registration stats the file once more and remembers the result *)
 Definition obs_stat (p : ppath) : FM unit :=
   fun st => match obs_find (st_obs st) p with
-            | Some false => (({| st_fs := st_fs st; st_obs := obs_mark (st_obs st) p |}, [EStat p]), inr tt)
+            | Some false => (({| st_fs := st_fs st; st_obs := obs_mark (st_obs st) p; st_spool := st_spool st |}, [EStat p]), inr tt)
             | _ => ((st, []), inr tt)
             end.
 
@@ -266,13 +277,14 @@ Definition store_file (self : fileserver) (req : request) (p : ppath) : FM respo
   | inl e => raise (XOSError e)
   | inr _ =>
       let tmp := child dir (fs_tmpname self) in
-      c <-- create tmp (payload req) ;;;                           (* + spool.write(request.payload) *)
+      let shown := child (abspath self dir) (fs_tmpname self) in   (* _mkstemp_inner: dir = os.path.abspath(dir) *)
+      c <-- create shown tmp (payload req) ;;;                     (* + spool.write(request.payload) *)
       match c with
       | inl e => raise (XOSError e)
       | inr _ =>
-          r <-- rename tmp p ;;;                                   (* temppath.rename(path) *)
+          r <-- rename shown tmp p ;;;                             (* temppath.rename(path) *)
           match r with
-          | inl e => unlink tmp ;;; raise (XOSError e)             (* except Exception: temppath.unlink(); raise *)
+          | inl e => unlink shown tmp ;;; raise (XOSError e)       (* except Exception: temppath.unlink(); raise *)
           | inr _ =>
               s <-- stat p ;;;
               match s with
@@ -309,7 +321,7 @@ Definition render_delete (self : fileserver) (req : request) : FM response :=
   else
     p <-- lift_path (request_to_localpath self req) ;;;
     check_if_match self req p XNoSuchFile ;;;
-    u <-- unlink p ;;;
+    u <-- unlink p p ;;;
     match u with
     | inl ENOENT => raise XNoSuchFile
     | inl e => raise (XOSError e)
@@ -323,12 +335,59 @@ Definition render (self : fileserver) (req : request) : FM response :=
   else if code req =? 4 then render_delete self req
   else raise XUnallowedMethod.
 
-(* interfaces.py:492-507 ObservableResource._render_to_pipe: Observe:0 registers first (which validates the path);
-   otherwise Resource._render_to_pipe, whose Block1 spool / Block2 cache pass requests without block options through *)
+(* fileserver.py:133-143 needs_blockwise_assembly *)
+Definition needs_blockwise_assembly (req : request) : bool :=
+  negb (code req =? 1) || negb (nonempty_list (opt_uri_path req)) || last_is_empty (opt_uri_path req) || parts_eqb (opt_uri_path req) WKC.
+Definition with_payload (req : request) (b : list Z) : request :=
+  {| code := code req; opt_uri_path := opt_uri_path req; opt_observe := opt_observe req; opt_etags := opt_etags req;
+     opt_if_match := opt_if_match req; opt_if_none_match := opt_if_none_match req; opt_block1 := opt_block1 req;
+     opt_block2 := opt_block2 req; payload := b |}.
+Definition block_key (req : request) : spoolkey :=
+  (code req, opt_uri_path req, opt_etags req, opt_if_match req, opt_if_none_match req).
+Definition etag_eqb (a b : etagref) : bool :=
+  match a, b with ECur, ECur | EOther, EOther | EEmpty, EEmpty => true | _, _ => false end.
+Definition key_eqb (a b : spoolkey) : bool :=
+  let '(c1, p1, e1, m1, n1) := a in let '(c2, p2, e2, m2, n2) := b in
+  (c1 =? c2) && parts_eqb p1 p2 && list_eqb etag_eqb e1 e2 && list_eqb etag_eqb m1 m2 && Bool.eqb n1 n2.
+Fixpoint spool_find (sp : list (spoolkey * list Z)) (k : spoolkey) : option (list Z) :=
+  match sp with [] => None | (k', b) :: r => if key_eqb k' k then Some b else spool_find r k end.
+Fixpoint spool_set (sp : list (spoolkey * list Z)) (k : spoolkey) (b : list Z) : list (spoolkey * list Z) :=
+  match sp with [] => [(k, b)] | (k', b') :: r => if key_eqb k' k then (k', b) :: r else (k', b') :: spool_set r k b end.
+(* blockwise.py:63-91 Block1Spool.feed_and_take with message.py:445-472 _append_request_block: block 0 (re)starts the
+   body; a later block must have a full-size payload while M is set (4.00) and must start where the body ends (4.08);
+   while M is set the answer is 2.31 Continue; the last block releases the request with the assembled body *)
+Definition feed_and_take (req : request) : FM request :=
+  match opt_block1 req with
+  | None => ret req
+  | Some (num, more, szx) =>
+      fun st =>
+        let k := block_key req in
+        let assembled :=
+          if num =? 0 then inr (payload req)
+          else match spool_find (st_spool st) k with
+               | None => inl XIncomplete
+               | Some acc =>
+                   if more && negb ((blen (payload req) =? blk_size szx) || ((szx =? 7) && (blen (payload req) mod blk_size szx =? 0)))
+                   then inl XBadRequest
+                   else if blk_start num szx =? blen acc then inr (acc ++ payload req) else inl XIncomplete
+               end in
+        match assembled with
+        | inl e => ((st, []), inl e)
+        | inr body =>
+            let st' := {| st_fs := st_fs st; st_obs := st_obs st; st_spool := spool_set (st_spool st) k body |} in
+            if more then ((st', []), inl XContinue) else ((st', []), inr (with_payload req body))
+        end
+  end.
+
+(* interfaces.py:416-444 / 492-507: Observe:0 registers first (which validates the path) and renders without block-wise
+   assembly; otherwise Resource._render_to_pipe: requests that need assembly go through the Block1 spool (the Block2 cache
+   passes responses that fit into one message through) *)
 Definition render_to_pipe (self : fileserver) (req : request) : FM response :=
   match opt_observe req with
   | Some 0 => add_observation self req ;;; render self req
-  | _ => render self req
+  | _ => if needs_blockwise_assembly req
+         then (req' <-- feed_and_take req ;;; render self req')
+         else render self req
   end.
 
 (* pipe.error_to_message: renderable errors carry their code, everything else is 5.00 *)
@@ -339,6 +398,9 @@ Definition exn_code (e : exnk) : Z :=
   | XUnallowedMethod => 133
   | XPreconditionFailed => 140
   | XValueError | XOSError _ => 160
+  | XContinue => 95
+  | XIncomplete => 136
+  | XBadRequest => 128
   end.
 Definition serve (self : fileserver) (req : request) (st : state) : state * list effect * response :=
   match render_to_pipe self req st with
@@ -349,7 +411,7 @@ Definition serve (self : fileserver) (req : request) (st : state) : state * list
 (* ------------------------------------------------------------------ histories *)
 Definition with_block2 (req : request) (b : option (Z * bool * Z)) : request :=
   {| code := code req; opt_uri_path := opt_uri_path req; opt_observe := opt_observe req; opt_etags := opt_etags req;
-     opt_if_match := opt_if_match req; opt_if_none_match := opt_if_none_match req; opt_block2 := b; payload := payload req |}.
+     opt_if_match := opt_if_match req; opt_if_none_match := opt_if_none_match req; opt_block1 := opt_block1 req; opt_block2 := b; payload := payload req |}.
 Definition has_more (r : response) : bool := match rbody r with BFile _ (Some (_, true, _)) => true | _ => false end.
 (* a client fetching block after block (same size exponent) until a response comes without the M bit *)
 Fixpoint fetch_all (fuel : nat) (self : fileserver) (req : request) (szx n : Z) (st : state) : state * list (list effect * response) :=
